@@ -524,7 +524,7 @@ def check_C10(A: Analysis, tier):
     rules.append(rc)
 
     rd = Rule("C10", "C10.d", "no clean-up branch uses a path after renaming it away (see C05.a)", floor=1)
-    c5 = [r for r in check_C05_cached(A) if r.rid == "C05.a"][0]
+    c5 = [r for r in c05_cached(A) if r.rid == "C05.a"][0]
     rd.instances = list(c5.instances)
     rd.nontrivial = set(c5.nontrivial)
     rd.obligations = c5.obligations
@@ -555,7 +555,7 @@ def check_C10(A: Analysis, tier):
 _c05_cache = {}
 
 
-def check_C05_cached(A):
+def c05_cached(A):
     if id(A) not in _c05_cache:
         _c05_cache[id(A)] = check_C05(A, "quick")
     return _c05_cache[id(A)]
